@@ -72,6 +72,36 @@ func findSigRoles(p *Prog) *sigRoles {
 			}
 		}
 	}
+	// a helper that hands its own target parameter on to such a helper (after preparing the element) is one too
+	for round := 0; round < 3; round++ {
+		for _, fn := range p.modFns {
+			if sr.Unmarshal[fn] || !p.InLibrary(fn) {
+				continue
+			}
+			hasEl := false
+			for _, q := range fn.Params {
+				if typeIs(q.Type(), "github.com/beevik/etree", "Element") {
+					hasEl = true
+				}
+			}
+			if !hasEl {
+				continue
+			}
+			for _, b := range fn.Blocks {
+				for _, in := range b.Instrs {
+					ci, ok := in.(ssa.CallInstruction)
+					if !ok || ci.Common().StaticCallee() == nil || !sr.Unmarshal[ci.Common().StaticCallee()] {
+						continue
+					}
+					for _, a := range ci.Common().Args {
+						if q, ok := a.(*ssa.Parameter); ok && types.IsInterface(q.Type()) {
+							sr.Unmarshal[fn] = true
+						}
+					}
+				}
+			}
+		}
+	}
 	for _, fn := range p.FuncsCalling(modPath + "/xmlenc.Decrypt") {
 		if !p.InLibrary(fn) || fn.Pkg == nil || fn.Pkg.Pkg.Path() != modPath {
 			continue
